@@ -699,6 +699,11 @@ def shrink_candidates(case):
             if files[i][0] != path:
                 m = None if meta is None else [t for t in meta if t[0] != files[i][0]]
                 yield (k, files[:i] + files[i + 1:], path, a, m)
+        if meta is None:
+            for i, (n, c) in enumerate(files):
+                for piece in (c[:len(c) // 2], c[len(c) // 2:], c[1:], c[:-1]):
+                    if len(piece) < len(c):
+                        yield (k, files[:i] + [(n, piece)] + files[i + 1:], path, a, None)
         if k == 'records' and meta is not None:
             def framed(recs):
                 if isinstance(a, int):
